@@ -65,8 +65,33 @@ def shards(tier, seed):
                 continue  # a cumulative sum of dates is not defined
             for n in range(1, b["n_other_dtypes"] + 1):
                 out.append(dict(func=func, dtype=dtype, n=n, part=0, nparts=1))
+    # many blocks (deep parallel-prefix trees): k size-1 or size-2 chunks, periodic label patterns
+    for func in ("nancumsum", "ffill", "bfill"):
+        for k in (tuple(range(8, 19)) if tier == "quick" else tuple(range(8, 25))):
+            out.append(dict(func=func, dtype="float64", n=k, part=0, nparts=1, many=True))
     out.sort(key=lambda s: -s["n"] * 100 // s["nparts"])
     return out
+
+
+def run_many(res, shard):
+    func, k = shard["func"], shard["n"]
+    for per in (1, 2):
+        n = k * per
+        base = np.arange(1.0, n + 1.0)
+        rows = [base, np.where(np.arange(n) % 3 == 1, np.nan, base), np.where(np.arange(n) % 5 == 0, base, np.nan), -base[::-1]]
+        V = np.array(rows)
+        pats = []
+        for p in (1, 2, 3):
+            for r in (1, 2, 3):
+                pats.append(tuple(float((i // r) % p) for i in range(n)))
+        if func != "nancumsum":
+            pats.append(tuple(NANL if i % 4 == 2 else float(i % 2) for i in range(n)))
+        for lt in dict.fromkeys(pats):
+            check_point(res, func, "float64", lt, (per,) * k, 1, V)
+            res.nontrivial += V.shape[0]
+            res.classes[f"blocks={k}"] += 1
+    res.sample(dict(leg="many-blocks", func=func, blocks=k, chunk_sizes=[1, 2], label_patterns="(i // r) % p, p,r in 1..3"))
+    return res
 
 
 def label_alphabet(func):
@@ -199,6 +224,8 @@ def interesting(lab_tuple, chunks):
 def run_shard(shard):
     e1.reset_flox_caches()
     res = Result()
+    if shard.get("many"):
+        return run_many(res, shard)
     func, dtype, n = shard["func"], shard["dtype"], shard["n"]
     V = value_matrix(dtype, n)
     layouts = [None] + space.compositions(n)
@@ -247,6 +274,8 @@ def replay(payload):
     res = Result()
     c = payload["case"]
     lt = tuple(unjson_float(c["labels"]))
+    if len(lt) > 7:
+        return run_many(res, dict(func=c["func"], n=len(c["chunks"])))
     V = value_matrix(c["dtype"], len(lt))
     check_point(res, c["func"], c["dtype"], lt, tuple(c["chunks"]) if c.get("chunks") else None, c.get("batch_blocks", 1), V,
                 oned_row=c.get("oned_row"), labels_dask=c.get("labels_dask", False))
